@@ -67,6 +67,10 @@ type g2lUnit struct {
 	ifaceStructs map[string]string // multi-method interface -> Lean structure text (emitted verbatim); method call = field application
 	effects   map[string]string // interface method with no result -> treated as an effect appended to `effLog` (value = Lean type of one log entry)
 	preamble  string            // extra Lean text after the struct declarations
+	worldFns  map[string]string // function -> Lean type W of the world it threads: extra last parameter `world : W`, result R × W
+	worldCalls map[string]string // source text of a call's function expression -> Lean function `args… → W → (result × W)` (an external call that reads / changes the world)
+	foreignTypes map[string]string // "zip.Reader" -> Lean structure name (declared in the imports / preamble) for a struct type of another package
+	limitedReaders bool          // io.LimitedReader{R, N} values are `LimitedReader` structures; io.Copy(w, lr) reads through `limRead`
 	structTV  map[string]bool   // computed: struct is parametric in the abstract type variables
 }
 
@@ -174,6 +178,8 @@ type g2lFn struct {
 	inClosure bool
 	labels    map[string]int    // top-level labels of the body -> statement index
 	effType  string
+	worldVar *types.Var // synthetic variable standing for the threaded world (nil: the function does not thread one)
+	worldType string
 	usedName map[string]bool
 	structs  map[string]*types.Named
 }
@@ -309,6 +315,9 @@ func (f *g2lFn) leanType(t types.Type, at ast.Node) string {
 		}
 		return "(" + strings.Join(ps, " → ") + " → " + f.leanType(sig.Results(), at) + ")"
 	}
+	if ft := f.foreignType(t); ft != "" {
+		return ft
+	}
 	if n, ok := t.(*types.Named); ok {
 		name := n.Obj().Name()
 		if v, ok := f.u.absTypes[name]; ok {
@@ -381,6 +390,18 @@ func (f *g2lFn) leanType(t types.Type, at ast.Node) string {
 
 func (f *g2lFn) noteAbsType(string) {}
 
+// foreignType: the configured Lean structure for a (pointer to a) named type of another package ("" if none)
+func (f *g2lFn) foreignType(t types.Type) string {
+	if p, ok := t.(*types.Pointer); ok {
+		t = p.Elem()
+	}
+	n, ok := t.(*types.Named)
+	if !ok || n.Obj().Pkg() == nil || n.Obj().Pkg() == f.p.pkg {
+		return ""
+	}
+	return f.u.foreignTypes[n.Obj().Pkg().Name()+"."+n.Obj().Name()]
+}
+
 func (f *g2lFn) structType(name string) string {
 	if f.u.structTV[name] {
 		return "(" + name + " " + strings.Join(sortedVals(f.u.absTypes), " ") + ")"
@@ -394,6 +415,9 @@ func (f *g2lFn) zero(t types.Type, at ast.Node) string {
 	}
 	if at2, ok := t.(*types.Array); ok && intKindOf(at2.Elem()) == kU8 {
 		return fmt.Sprintf("(List.replicate %d (0 : UInt8))", at2.Len())
+	}
+	if ft := f.foreignType(t); ft != "" {
+		return "(default : " + ft + ")"
 	}
 	if n, ok := t.(*types.Named); ok {
 		if v, ok := f.u.absTypes[n.Obj().Name()]; ok {
@@ -629,7 +653,7 @@ func (f *g2lFn) expr(b *binds, e ast.Expr) string {
 				if n, ok := f.typeOf(cl).(*types.Named); ok && g2lImplementsError(types.NewPointer(n)) {
 					for _, el := range cl.Elts {
 						if kv, ok := el.(*ast.KeyValueExpr); ok {
-							if id, ok := kv.Key.(*ast.Ident); ok && id.Name == "Err" {
+							if id, ok := kv.Key.(*ast.Ident); ok && (id.Name == "Err" || (isErrorType(f.typeOf(kv.Value)) && id.Name == "err")) {
 								return fmt.Sprintf("(wrapErr %q %s)", n.Obj().Name(), f.exprAs(b, kv.Value, g2lErrorType))
 							}
 						}
@@ -735,6 +759,11 @@ func (f *g2lFn) expr(b *binds, e ast.Expr) string {
 					f.bad(e, "field path of %s", show(e))
 				}
 				fl := st.Field(ix)
+				if fl.Embedded() && f.foreignType(t) != "" {
+					// a promoted field of a foreign struct (zip.File embeds FileHeader): the Lean structure is flat
+					t = fl.Type()
+					continue
+				}
 				path = "(" + path + "." + leanIdent(fl.Name()) + ")"
 				t = fl.Type()
 			}
@@ -976,6 +1005,12 @@ func (f *g2lFn) convert(b *binds, to types.Type, arg ast.Expr, at ast.Node) stri
 		return f.zero(to, at)
 	}
 	from := f.typeOf(arg)
+	if n, ok := to.(*types.Named); ok && n.Obj().Pkg() == f.p.pkg && g2lImplementsError(to) && !isErrorType(from) {
+		// FileErrorList(list) used as an error value: identified by the type name
+		if _, isSlice := n.Underlying().(*types.Slice); isSlice {
+			return fmt.Sprintf("(some %q)", n.Obj().Name())
+		}
+	}
 	x := f.expr(b, arg)
 	tk, fk := intKindOf(to), intKindOf(from)
 	if tk != notInt && fk != notInt {
